@@ -7,6 +7,7 @@ both threads in their real order).
                    in order: at most one select is in progress and no posted arguments are ever overwritten.
 * `lost k`       : fds that were registered *and* ready during the whole suffix of the trace starting at index `k`
                    without their callback being dispatched in that suffix.
+* `inSelect`     : at the end of the trace the selector thread is inside `select` (used when both threads are at rest).
 * `closeOk`      : once `close` has begun, the selector thread exits, `join` returns after that and `close` finishes.
 -/
 import TornadoModel.C40.Model
@@ -23,6 +24,7 @@ def tokStep (t : Tok) : Ev → Option Tok
   | .post _ => if t = .handling then some .posted else Option.none
   | .take _ => if t = .posted then some .withS else Option.none
   | .selected _ => if t = .withS then some .withS else Option.none
+  | .ebadf => if t = .withS then some .withS else Option.none
   | .report _ => if t = .withS then some (.reported 1) else Option.none
   | .handleBegin _ => if t = .reported 1 then some .handling else Option.none
   | _ => some t
@@ -30,6 +32,19 @@ def tokStep (t : Tok) : Ev → Option Tok
 def alternates : Tok → List Ev → Bool
   | _, [] => true
   | t, e :: es => match tokStep t e with | some t' => alternates t' es | Option.none => false
+
+/-- is a select in progress at the end of the trace: the selector thread took arguments (`take`) and has neither
+returned from `select` nor failed in it since?  When both threads have come to rest this is the only healthy
+situation — a rest with no select in progress (arguments never posted again) means no readiness will ever be
+dispatched: the selector/loop pair is deadlocked even if nothing is ready right now. -/
+def inSelect : Bool → List Ev → Bool
+  | b, [] => b
+  | _, .take _ :: es => inSelect true es
+  | _, .selected _ :: es => inSelect false es
+  | _, .ebadf :: es => inSelect false es
+  | _, .report _ :: es => inSelect false es
+  | _, .sexit :: es => inSelect false es
+  | b, _ :: es => inSelect b es
 
 structure Book where
   readers : List Fd := []
